@@ -2,6 +2,8 @@ package main
 
 import (
 	"fmt"
+	"go/token"
+	"sort"
 	"strings"
 
 	"golang.org/x/tools/go/ssa"
@@ -9,14 +11,14 @@ import (
 
 func init() {
 	register(&propDef{
-		ID:  "C09",
-		Run: ruleC09,
+		ID:          "C09",
+		Run:         ruleC09,
 		Explanation: "Decides sibling agreement between the encrypting and the decrypting side and fail-closed handling in the decrypt command (structural necessary conditions of C09): Encrypt and Decrypt build their primitive through the same chain from the key parameter and pass identical associated data; the text leaving the redactor is E.EncodeToString(ciphertext) and the text entering Decrypt is E.DecodeString(arg) for the same base64 encoding with only string/[]byte conversions around; key reader and key writer use one encoding; the plaintext print is dominated by err==nil of key read, base64 decode and Decrypt, and each error exits non-zero. NOT decided: AES-SIV correctness/authenticity (Tink), behaviour for every Unicode string, JSON escaping of the base64 text.",
 		RuleText:    "obligations = primitive chains, associated-data operands, encoding objects, conversions on the plaintext/ciphertext path, error tests of the decrypt command",
 	})
 	register(&propDef{
-		ID:  "C10",
-		Run: ruleC10,
+		ID:          "C10",
+		Run:         ruleC10,
 		Explanation: "Decides (structural necessary conditions of C10): the string-replacement choke point never returns its plaintext parameter or anything derived from it other than ciphertext (fail closed, also when encryption errors or no key is loaded); Encrypt is called from exactly one place and every string leaf the scalar step replaces goes through that place, numbers/booleans never; nothing reachable from Encrypt inside the package reads time/randomness/environment, associated data is constant, the key global is stored only by its setter which is called only from the redact command before processing; whenever encrypt mode is switched on, a key obtained from the generator or the validated reader (error tested nil) is installed before the first processing call on every path. NOT decided: determinism/injectivity of Tink's AES-SIV itself.",
 		RuleText:    "obligations = returns of the string choke point (taint from the plaintext parameter), call sites of Encrypt, string-typed returns of the scalar step, effect calls reachable from Encrypt, stores to the key global, paths from SetShouldEncrypt to processing calls",
 	})
@@ -134,6 +136,30 @@ func ruleC09(c *Ctx, r *Report) {
 		}
 		r.Check(ok && isParam, "C09-R2", f.Name()+":plaintext-to-Encrypt", c.InstrPos(es),
 			"Encrypt receives []byte(param) unchanged", "the plaintext is transformed (trimmed/sliced/folded) before encryption, so it cannot decrypt back to the original")
+		if ok && isParam {
+			prm := conv.X.(*ssa.Parameter)
+			pidx := -1
+			for pi, q := range f.Params {
+				if q == prm {
+					pidx = pi
+				}
+			}
+			for _, site := range c.callersOf(f) {
+				if pidx < 0 || pidx >= len(site.Call.Args) {
+					continue
+				}
+				arg := site.Call.Args[pidx]
+				base := rootOf(arg)
+				_, isCall := base.(*ssa.Call)
+				_, isBin := base.(*ssa.BinOp)
+				_, isSl := base.(*ssa.Slice)
+				_, isConv := base.(*ssa.Convert)
+				untouched := !(isCall || isBin || isSl || isConv)
+				r.Check(untouched, "C09-R2", fmt.Sprintf("%s:plaintext-into-%s", site.Parent().Name(), f.Name()), c.InstrPos(site),
+					"the string handed to the encrypting choke point is the input leaf itself (type assertion only)",
+					"the input leaf is transformed ("+describeArg(base)+") before it is encrypted: decryption yields the transformed text, not the original")
+			}
+		}
 		// ciphertext -> EncodeToString(E, ct) returned
 		ct := extractOf(es, 0)
 		found := false
@@ -187,14 +213,67 @@ func ruleC09(c *Ctx, r *Report) {
 		// plaintext out: only string(pt), optionally concatenated with constants, printed
 		pt := extractOf(ds, 0)
 		okOut := pt != nil
+		var outBad []string
+		nPrints := 0
 		if pt != nil {
-			for _, rr := range referrers(pt) {
-				if cv, ok := rr.(*ssa.Convert); !ok || !isStringType(cv.Type()) {
-					okOut = false
+			seen := map[ssa.Value]bool{}
+			var follow func(v ssa.Value)
+			follow = func(v ssa.Value) {
+				if seen[v] {
+					return
+				}
+				seen[v] = true
+				for _, rr := range referrers(v) {
+					switch x := rr.(type) {
+					case *ssa.DebugRef:
+					case *ssa.Convert:
+						if v == ssa.Value(pt) && !isStringType(x.Type()) {
+							outBad = append(outBad, "converted to "+x.Type().String()+" at "+c.InstrPos(rr))
+							continue
+						}
+						follow(x)
+					case *ssa.BinOp:
+						// concatenation with a constant label
+						other := x.X
+						if other == v {
+							other = x.Y
+						}
+						if _, isC := other.(*ssa.Const); x.Op == token.ADD && isC {
+							follow(x)
+						} else {
+							outBad = append(outBad, "combined in "+x.String()+" at "+c.InstrPos(rr))
+						}
+					case *ssa.MakeInterface:
+						follow(x)
+					case *ssa.Store:
+						if ia, ok := x.Addr.(*ssa.IndexAddr); ok {
+							if al, ok := ia.X.(*ssa.Alloc); ok {
+								for _, ar := range referrers(al) {
+									if sl, ok := ar.(*ssa.Slice); ok {
+										follow(sl)
+									}
+								}
+								continue
+							}
+						}
+						outBad = append(outBad, "stored at "+c.InstrPos(rr))
+					case *ssa.Call:
+						k := calleeKey(&x.Call)
+						if k == "fmt.Println" || k == "fmt.Print" || k == "fmt.Fprintln" || k == "fmt.Fprint" {
+							nPrints++
+							continue
+						}
+						outBad = append(outBad, "passed through "+shortKey(k)+" at "+c.InstrPos(rr))
+					default:
+						outBad = append(outBad, fmt.Sprintf("used by %T at %s", rr, c.InstrPos(rr)))
+					}
 				}
 			}
+			follow(pt)
 		}
-		r.Check(okOut, "C09-R2", dc.Name()+":plaintext-out", c.InstrPos(ds), "decrypted bytes are only converted to string for printing", "decrypted bytes are transformed before printing")
+		sort.Strings(outBad)
+		okOut = okOut && len(outBad) == 0 && nPrints >= 1
+		r.Check(okOut, "C09-R2", dc.Name()+":plaintext-out", c.InstrPos(ds), "decrypted bytes are converted to string, prefixed with a constant label and printed - nothing else touches them", fmt.Sprintf("the decrypted text is transformed or diverted before it is printed (prints reached: %d): %s", nPrints, strings.Join(outBad, "; ")))
 	}
 
 	// ---- R3 key agreement
@@ -495,6 +574,44 @@ func ruleC10(c *Ctx, r *Report) {
 			where = append(where, e.Kind+"@"+c.InstrPos(e.Instr))
 		}
 		r.Check(len(ends) == 0, "C10-R4", cl.Name()+":encrypt-mode-implies-key", c.InstrPos(se), "every path from SetShouldEncrypt to a processing call installs a generated or validated key (err==nil) or exits non-zero", fmt.Sprintf("processing reachable in encrypt mode without a validated key being installed: %v", where))
+	}
+	encryptHonouredRule(c, r, an, "C10-R5")
+}
+
+// encryptHonouredRule (C10-R5 / C16-R6): the test of the --encrypt flag that guards the
+// mode switch dominates every record-producing call of the redact command, so that no
+// input channel (file, stdin, Atlas files) silently ignores the flag.
+func encryptHonouredRule(c *Ctx, r *Report, an *Anchors, rule string) {
+	cl := an.RedactClosure
+	r.Floor(rule, 2, "record-producing calls of the redact command (3 today)")
+	var tests []*ssa.If
+	for _, se := range callsIn(cl, func(k string, _ *ssa.Call) bool { return k == c.pkgFn("SetShouldEncrypt") }) {
+		for _, f := range allFacts(se.Block()) {
+			if name, ok := an.flagOfValue(cl, f.Cond); ok && name == "encrypt" && f.Pol && f.If != nil {
+				tests = append(tests, f.If)
+			}
+		}
+	}
+	if len(tests) == 0 {
+		r.Bad(rule, cl.Name()+":encrypt-test", c.Pos(cl.Pos()), "no test of the --encrypt flag guards a call of the mode switch: the flag has no effect")
+		return
+	}
+	streamCallers := map[string]bool{}
+	if an.StreamFn != nil {
+		for _, call := range c.callersOf(an.StreamFn) {
+			streamCallers[fnFullName(call.Parent())] = true
+		}
+	}
+	for _, call := range callsIn(cl, func(k string, _ *ssa.Call) bool { return streamCallers[k] }) {
+		dom := false
+		for _, t := range tests {
+			if t.Block().Dominates(call.Block()) {
+				dom = true
+			}
+		}
+		r.Check(dom, rule, fmt.Sprintf("%s:encrypt-test-before(%s)", cl.Name(), shortKey(calleeKey(&call.Call))), c.InstrPos(call),
+			"every path to this record-producing call has evaluated the --encrypt switch: the channel redacts under the active flags",
+			"this record-producing call can be reached without the --encrypt switch ever being evaluated: on this input channel the flag is accepted and silently ignored")
 	}
 }
 
